@@ -86,6 +86,12 @@ MISSED_FIRST = {  # the property's own check missed it before it was strengthene
     "C04-j": "C04: candidates / droplets centred OUTSIDE the box along a non-periodic axis (cut by a wall); before that only the diverging correspondence was reported (no-failing-input-found)",
     "C05-j": "C05: intensity maps below numpy's default tolerances (range 4e-9; contrast 0.05 on a background of 1e4) in the cycled maps; before that only the broken obligation residual_scale was reported",
     "C11-k": "C11: droplets far from the origin relative to their separation (2e6 +- 5), a unit of length of 1e-9, droplets on a common axis; every coordinate sent to the model; tolerances relative to the operands; before that only the broken translation was reported",
+    "C01-j": "C01: centres between half a period and several periods outside the box on periodic axes (any periodic image is a valid centre)",
+    "C08-k": "C08: a history on one object - droplets linked to a common array (get_linked_data), then the list reordered in place (reverse / sort / swap) - before writing",
+    "C12-k": "C12: the comparison helper rel_close accepted an infinite value for any finite one (inf <= rtol * inf); radii down to 1e-15 were in the stream all along; before the repair only the broken obligation was reported",
+    "C17-j": "C17: plane waves on boxes with unequal spacings and cell counts (ratios up to 8), also shorter than two cells of a coarser axis (`plane_waves_anisotropic`)",
+    "C18-k": "C18: fields with more than 2**20 cells under 'otsu' against an exact oracle on the histogram of ALL cells; extremes attained once each (hot / cold pixel) at random positions - whether a strided subsample misses them depends on the seed",
+    "C20-k": "C20: `append` pairs the member with the time that was given, stated directly on the implementation (explicit time 0 on a non-empty collection); before that the diverging op sequence was reported without a failing input",
 }
 rows = []
 for d in sorted(ROOT.iterdir()):
